@@ -133,6 +133,18 @@ def find_items(rf):
             types[name] = (text, rf.line_of(ct[vis].pos), rf.line_of(ct[end].end))
             i = end + 1
             continue
+        if t.kind == 'ident' and t.text == 'type' and ct[i + 1].kind == 'ident' and not (ctx_stack and ctx_stack[-1][1] == 'impl'):
+            name = ct[i + 1].text
+            j = i + 2
+            while ct[j].text != ';':
+                j += 1
+            vis = i
+            if i >= 1 and ct[i - 1].text == 'pub':
+                vis = i - 1
+            text = rf.src[ct[vis].pos:ct[j].end]
+            types[name] = (text, rf.line_of(ct[vis].pos), rf.line_of(ct[j].end))
+            i = j + 1
+            continue
         if t.kind == 'ident' and t.text == 'fn' and ct[i + 1].kind == 'ident':
             name_i = i + 1
             j = i + 2
@@ -402,24 +414,33 @@ def emit_function(root, c, mode, extra_fmt_fns):
         attrs.append('#[verifier::external_body]')
         body = '{ unimplemented!() }'
     else:
-        # inserts
+        # all anchors (and loop positions) are located on the un-annotated body, then the payloads
+        # are inserted from the end backwards, so a payload can never be matched by an anchor
+        edits = []   # (pos, order, text)
+        order = 0
         for where, occ, anchor, payload in c.inserts:
+            order += 1
             if where == 'atstart':
-                body = '{\n' + payload + body[1:]
+                edits.append((1, order, '\n' + payload))
             elif where == 'atend':
-                body = body[:-1] + payload + '}'
+                edits.append((len(body) - 1, order, payload))
             else:
                 m = _find_anchor(body, anchor, occ, c.name)
                 p = m.end() if where == 'after' else m.start()
-                body = body[:p] + '\n' + payload + body[p:]
+                edits.append((p, order, '\n' + payload))
         if c.loops:
             lp = _loop_positions(body)
-            for n in sorted(c.loops, reverse=True):
+            for n in sorted(c.loops):
                 if n < 1 or n > len(lp):
                     raise ExtractError(f'contract {c.name}: loop {n} not found (lost anchor)')
-                p = lp[n - 1]
-                body = body[:p] + '\n' + c.loops[n] + body[p:]
+                order += 1
+                edits.append((lp[n - 1], order, '\n' + c.loops[n]))
+        for p, o, text in sorted(edits, key=lambda e: (-e[0], -e[1])):
+            body = body[:p] + text + body[p:]
     if mode == 'vacuity':
+        # the twin only has to show that `false` is NOT provable: a small resource limit is enough
+        # (exhausting it counts as "not vacuous"), so that heavy functions do not double the run time
+        attrs = [a for a in attrs if 'rlimit' not in a and 'spinoff' not in a] + ['#[verifier::rlimit(2)]']
         sig = re.sub(r'\bfn\s+' + re.escape(name) + r'\b', 'fn ' + name + '__vac', sig, count=1)
         spec = _add_false_ensures(spec)
     text = ''
